@@ -128,7 +128,7 @@ def run(ctx):
         n = 16
     else:
         cs = cases(ctx, ALL_TYPES, ["f32", "f64", "u8"], "serde_cases")
-        n = 400
+        n = 1000
     hp = ctx.p("cases.hist")
     with open(hp, "w") as f:
         f.write("\n".join(cs) + "\n")
